@@ -23,11 +23,37 @@ on a sample too):
 (4) exact back-end: isomorphic inputs ⇒ equal canonical graphs on the covered attributes
     (equal `_serialise` text, and `spec.covEq` on a sample);
 (5) wrapper equality / hash (`CanonicalGraph`, `SynGraph`, `SynRule`) consistent with (3).
+
+Streams added for the classes of breakage the first generators under-sampled (every gate is one of
+(1)-(5); the specification side of each query is computed without reference to earlier queries):
+
+* `stream_shapes` — rare-but-legal inputs: pair-valued bond orders with (a,b) next to (b,a) and
+  standard_order absent / a-b / zeroed below 1 / zero (all the ways SynKit writes or omits it),
+  tiny-exhaustive with all node permutations and on symmetric skeletons; symmetric graphs in which
+  exactly one attribute (each covered key in turn, standard_order alone, one swapped pair, an
+  uncovered key) breaks the symmetry; optional keys absent on all nodes; spectator fragments;
+* `stream_options` — non-default configurations: node_attrs permuted / extended, other WL and Morgan
+  depths, sort keys over permuted / extended key lists (covered attributes = the keys of the sort
+  keys; isomorphism decided by the proven engine on exactly those keys), attribute names present
+  on both nodes and edges;
+* `stream_history` — hidden state between calls: long-lived canonicalisers, several configurations
+  interleaved on the same objects, repeated queries, in-place mutation, copies, relabelling onto the
+  object's own ids, sub-graphs, canonical graphs re-queried, one Python object refilled with another
+  graph.  Each answer (signature, serialised text, canonical graph as a value, wrapper digests)
+  must equal the answer of `Pristine`: a process forked before this process made its first
+  canonicalisation call, which answers every request in a grand-child of its own with a new
+  canonicaliser — "a function of the graph" in the literal sense, with no instance-, class- or
+  module-level history.  A failing history is minimised (each trial again in a history-free process).
 """
 import ast
+import copy
 import hashlib
 import itertools
 import json
+import os
+import pickle
+import sys
+import time
 
 import networkx as nx
 
@@ -49,6 +75,20 @@ THEOREMS = [
     "SynKit.Canon.canonicalGraph_eq_sound",
     "SynKit.Canon.fullStatement_model",
     "SynKit.Canon.spec_isRelabelling_iff",
+    "SynKit.Canon.refine_equivariant",
+    "SynKit.Canon.ir_leaves_equivariant",
+    "SynKit.Canon.ir_label_lower_bound",
+    "SynKit.Canon.ir_prune_sound",
+    "SynKit.Canon.ir_result_spec",
+    "SynKit.Canon.ir_fuel_adequate",
+    "SynKit.Canon.canonIR_faithful",
+    "SynKit.Canon.canonIR_sound",
+    "SynKit.Canon.ir_invariant_noprune",
+    "SynKit.Canon.ir_invariant",
+    "SynKit.Canon.ir_invariant_anyOrder",
+    "SynKit.Canon.canonIR_covEq",
+    "SynKit.Canon.valueobject_ir_iff",
+    "SynKit.Canon.fullStatement_ir",
 ]
 
 BACKENDS = ["generic", "wl", "morgan", "nauty"]
@@ -59,17 +99,55 @@ NODE_DEFAULT = {"element": "", "charge": 0, "aromatic": False, "hcount": 0}
 EDGE_DEFAULT = {"order": 0, "standard_order": 0}
 MAX_VIOL = 6
 
+ATTR_DEFAULT = {**NODE_DEFAULT, **EDGE_DEFAULT, "atom_map": 0}
+
 _canon = {}
 
 
-def canoniser(be, twin=False):
-    key = (be, twin)
+def opts_key(opts):
+    return json.dumps(opts, sort_keys=True) if opts else ""
+
+
+def node_keys_of(opts):
+    """Node attributes the signature covers under these options (the keys of the node sort key)."""
+    return list(opts["node_key"]) if opts and opts.get("node_key") else NODE_KEYS
+
+
+def edge_keys_of(opts):
+    return list(opts["edge_key"]) if opts and opts.get("edge_key") else EDGE_KEYS
+
+
+def custom_keys(opts):
+    return bool(opts and (opts.get("node_key") or opts.get("edge_key")))
+
+
+def make_canoniser(be, twin=False, opts=None):
+    """A NEW GraphCanonicaliser.  `opts` (JSON-able, all optional): node_attrs (list), wl_iterations,
+    morgan_radius, node_key / edge_key (lists of attribute names: the sort keys are built from them
+    the way the default ones are, `(tuple(sorted((u, v))), *values)` for edges)."""
+    if twin:
+        from synkit.Graph.Canon.canon_graph import GraphCanonicaliser
+    else:
+        from synkit.Graph.canon_graph import GraphCanonicaliser
+    kw = {}
+    opts = opts or {}
+    for k in ("node_attrs", "wl_iterations", "morgan_radius"):
+        if k in opts:
+            kw[k] = list(opts[k]) if k == "node_attrs" else opts[k]
+    if opts.get("node_key"):
+        nk = list(opts["node_key"])
+        kw["node_sort_key"] = lambda n, d, nk=nk: tuple(d.get(k, ATTR_DEFAULT[k]) for k in nk)
+    if opts.get("edge_key"):
+        ek = list(opts["edge_key"])
+        kw["edge_sort_key"] = lambda u, v, d, ek=ek: (tuple(sorted((u, v))),) + tuple(d.get(k, ATTR_DEFAULT[k]) for k in ek)
+    return GraphCanonicaliser(backend=be, **kw)
+
+
+def canoniser(be, twin=False, opts=None):
+    """The long-lived instance of this configuration (shared by every stream of the run)."""
+    key = (be, twin, opts_key(opts))
     if key not in _canon:
-        if twin:
-            from synkit.Graph.Canon.canon_graph import GraphCanonicaliser
-        else:
-            from synkit.Graph.canon_graph import GraphCanonicaliser
-        _canon[key] = GraphCanonicaliser(backend=be)
+        _canon[key] = make_canoniser(be, twin, opts)
     return _canon[key]
 
 
@@ -129,17 +207,18 @@ def random_copy(rnd, g):
     return relabelled_copy(g, pi, no, eo, flips)
 
 
-def cov_view(g):
+def cov_view(g, opts=None):
     """The graph as the signature sees it (encoded for the driver)."""
+    nk, ek = node_keys_of(opts), edge_keys_of(opts)
     return {
-        "nodes": [[int(n), {k: graphio.val(d.get(k, NODE_DEFAULT[k])) for k in NODE_KEYS}] for n, d in g.nodes(data=True)],
-        "edges": [[int(u), int(v), {k: graphio.val(d.get(k, EDGE_DEFAULT[k])) for k in EDGE_KEYS}] for u, v, d in g.edges(data=True)],
+        "nodes": [[int(n), {k: graphio.val(d.get(k, ATTR_DEFAULT[k])) for k in nk}] for n, d in g.nodes(data=True)],
+        "edges": [[int(u), int(v), {k: graphio.val(d.get(k, ATTR_DEFAULT[k])) for k in ek}] for u, v, d in g.edges(data=True)],
     }
 
 
-def iso_req(x, y):
-    return {"cmd": "match.iso", "host": cov_view(x), "pattern": cov_view(y),
-            "node_keys": NODE_KEYS, "edge_keys": EDGE_KEYS, "hcount": False}
+def iso_req(x, y, opts=None):
+    return {"cmd": "match.iso", "host": cov_view(x, opts), "pattern": cov_view(y, opts),
+            "node_keys": node_keys_of(opts), "edge_keys": edge_keys_of(opts), "hcount": False}
 
 
 # ------------------------------------------------------------------ input classes (known findings)
@@ -193,8 +272,8 @@ class Obs:
     is canonicalised with node tags so that the bijection can be read off; otherwise only the
     canonical graph, its serialised text and the signature are taken."""
 
-    def __init__(self, be, g, twin=False, deep=True):
-        gc = canoniser(be, twin)
+    def __init__(self, be, g, twin=False, deep=True, opts=None):
+        gc = canoniser(be, twin, opts)
         self.be, self.g, self.deep = be, g, deep
         self.error = None
         self.mapping = None
@@ -260,17 +339,26 @@ def full(ctx):
 
 
 # ------------------------------------------------------------------ checks
-def check_single(ctx, batch, be, g, tag, deep=True, twin=False):
-    """(1), (1b), (2) for one graph and one back-end.  Returns the Obs."""
-    ob = Obs(be, g, twin, deep)
-    case = {"kind": "single", "backend": be, "graph": dump(g), "twin": twin}
+def with_opts(case, opts):
+    if opts:
+        case["opts"] = opts
+    return case
+
+
+def check_single(ctx, batch, be, g, tag, deep=True, twin=False, opts=None):
+    """(1), (1b), (2) for one graph and one back-end.  Returns the Obs.  With custom sort keys
+    (`opts.node_key` / `opts.edge_key`) the model serialisation (default keys) is not compared."""
+    ob = Obs(be, g, twin, deep, opts)
+    case = with_opts({"kind": "single", "backend": be, "graph": dump(g), "twin": twin}, opts)
     classes = input_classes(g)
     ctx.count(f"single:{be}:{'deep' if deep else 'light'}")
+    if opts:
+        ctx.count(f"single_with_options:{be}")
     if ob.error:
         ctx.count(f"error:{be}:{ob.error}")
         ctx.violation(f"canonicalisation raises {ob.error}", case, {"stream": tag}, classes=classes)
         return ob
-    gc = canoniser(be, twin)
+    gc = canoniser(be, twin, opts)
     if ob.sig != hashlib.sha256(ob.text.encode()).hexdigest()[:32]:
         ctx.violation("signature is not sha256 of the serialised canonical graph (not a deterministic function of the graph)", case, {"stream": tag}, classes=classes)
         return ob
@@ -303,6 +391,8 @@ def check_single(ctx, batch, be, g, tag, deep=True, twin=False):
             ob.spec_failed = True
     batch.add({"cmd": "spec.isRelabelling", "graph": genc, "canon": cenc, "mapping": mp}, on_spec)
     order = [v for v, _ in sorted(ob.mapping.items(), key=lambda kv: kv[1])]
+    if custom_keys(opts):
+        return check_canon_canon(ctx, be, gc, ob, tag, classes, case, opts)
     try:
         impl_ser = parse_ser(ob.text)
     except Exception as e:
@@ -322,7 +412,11 @@ def check_single(ctx, batch, be, g, tag, deep=True, twin=False):
             ctx.violation("correspondence: model serialise(G') differs from the implementation's _serialise(G') on the canonical graph G'",
                           case, {"stream": tag, "impl": impl_ser, "model": rep}, classes=classes, no_input=True)
     batch.add({"cmd": "canon.serialise", "graph": cenc}, on_ser2)
-    # canon(canon g)
+    return check_canon_canon(ctx, be, gc, ob, tag, classes, case, opts)
+
+
+def check_canon_canon(ctx, be, gc, ob, tag, classes, case, opts=None):
+    """canon(canon g): gated for the exact back-end (equal serialisation), recorded for the others."""
     try:
         cg2 = gc._make_canonical_graph(ob.cg)
         text2 = gc._serialise(cg2)
@@ -335,33 +429,43 @@ def check_single(ctx, batch, be, g, tag, deep=True, twin=False):
         ctx.count(f"canon_canon_moved:{be}")
         if be in EXACT:
             ctx.violation("exact back-end: the canonical graph of a canonical graph has a different serialisation (isomorphic inputs, different signatures)",
-                          {"kind": "pair", "backend": be, "x": dump(ob.gt), "y": dump(ob.cg)}, {"stream": tag}, classes=classes + ["canon_of_canon"])
+                          with_opts({"kind": "pair", "backend": be, "x": dump(ob.gt), "y": dump(ob.cg)}, opts), {"stream": tag}, classes=classes + ["canon_of_canon"])
     return ob
 
 
-def check_copies(ctx, batch, base, copies, tag, deep_n=1):
+def check_copies(ctx, batch, base, copies, tag, deep_n=1, backends=BACKENDS, opts=None):
     """`copies` are relabelled / re-ordered copies of `base` (isomorphic by construction; the Lean
     engine confirms it on the reported pair).  Returns {backend: signature of base}."""
     out = {}
     classes = input_classes(base)
-    for be in BACKENDS:
-        ob0 = check_single(ctx, batch, be, base, tag, deep=True)
+    for be in backends:
+        ob0 = check_single(ctx, batch, be, base, tag, deep=True, opts=opts)
         if ob0.error:
             continue
         out[be] = ob0.sig_plain
         sigs = {}
         for i, c in enumerate(copies):
-            ob = check_single(ctx, batch, be, c, tag, deep=(i < deep_n))
+            ob = check_single(ctx, batch, be, c, tag, deep=(i < deep_n), opts=opts)
             if ob.error:
                 continue
             ctx.count(f"copies:{be}")
             if be in EXACT and (ob.sig_plain != ob0.sig_plain):
                 if not sigs:
-                    report_pair(ctx, batch, be, base, c, True, ob0, ob, tag, classes)
+                    report_pair(ctx, batch, be, base, c, True, ob0, ob, tag, classes, opts)
                 sigs[ob.sig_plain] = 1
             if be in EXACT and ob.sig_plain == ob0.sig_plain:
                 # (4) same canonical graph on the covered attributes: texts without the tag are equal
                 pass
+            if be in EXACT and i == 0:
+                # the search's own signature (NautyCanonicalizer.graph_signature, an observation point of the
+                # property): an attribute-preserving copy gets the same one
+                d0, d1 = direct_sig(be, base, opts), direct_sig(be, c, opts)
+                if d0 is not None and d1 is not None:
+                    ctx.count("direct_signature_copies")
+                    if d0 != d1:
+                        ctx.violation("exact back-end: NautyCanonicalizer.graph_signature differs between a graph and a relabelled copy of it",
+                                      with_opts({"kind": "pair", "backend": be, "x": dump(base), "y": dump(c)}, opts),
+                                      {"stream": tag, "graph_signature_x": d0, "graph_signature_y": d1}, classes=classes)
         if sigs:
             ctx.count(f"invariance_broken_bases:{be}")
         if full(ctx):
@@ -369,8 +473,20 @@ def check_copies(ctx, batch, base, copies, tag, deep_n=1):
     return out
 
 
-def report_pair(ctx, batch, be, x, y, iso, obx, oby, tag, classes):
-    case = {"kind": "pair", "backend": be, "x": dump(x), "y": dump(y)}
+def direct_sig(be, g, opts=None):
+    """`NautyCanonicalizer.graph_signature` of the exact back-end's search object (None when the
+    back-end has none or the call raises: exceptions are reported by check_single)."""
+    nauty = getattr(canoniser(be, False, opts), "nauty", None)
+    if nauty is None:
+        return None
+    try:
+        return nauty.graph_signature(g)
+    except Exception:
+        return None
+
+
+def report_pair(ctx, batch, be, x, y, iso, obx, oby, tag, classes, opts=None):
+    case = with_opts({"kind": "pair", "backend": be, "x": dump(x), "y": dump(y)}, opts)
     if iso:
         ctx.violation("exact back-end: isomorphic graphs receive different signatures / canonical graphs",
                       case, {"stream": tag, "sig_x": obx.sig_plain, "sig_y": oby.sig_plain,
@@ -380,12 +496,14 @@ def report_pair(ctx, batch, be, x, y, iso, obx, oby, tag, classes):
                       case, {"stream": tag, "sig": obx.sig_plain, "ser_x": obx.text[:400]}, classes=classes)
 
 
-def check_pair(ctx, batch, x, y, tag, backends=BACKENDS, twin=False):
-    """(3)/(4)/(5) on one pair, isomorphism decided by the proven engine."""
+def check_pair(ctx, batch, x, y, tag, backends=BACKENDS, twin=False, opts=None):
+    """(3)/(4)/(5) on one pair, isomorphism (on the attributes the signature covers under `opts`)
+    decided by the proven engine."""
     classes = sorted(set(input_classes(x) + input_classes(y)))
     obs = {}
     for be in backends:
-        a, b = check_single(ctx, batch, be, x, tag, deep=False, twin=twin), check_single(ctx, batch, be, y, tag, deep=False, twin=twin)
+        a, b = (check_single(ctx, batch, be, x, tag, deep=False, twin=twin, opts=opts),
+                check_single(ctx, batch, be, y, tag, deep=False, twin=twin, opts=opts))
         if a.error or b.error:
             continue
         obs[be] = (a, b)
@@ -400,35 +518,40 @@ def check_pair(ctx, batch, x, y, tag, backends=BACKENDS, twin=False):
             eq = a.sig_plain == b.sig_plain
             ctx.count(f"pair:{be}:{'eq' if eq else 'ne'}:{'iso' if iso else 'noniso'}")
             if eq and not iso:
-                report_pair(ctx, batch, be, x, y, False, a, b, tag, classes)
+                report_pair(ctx, batch, be, x, y, False, a, b, tag, classes, opts)
             if be in EXACT and iso and not eq:
-                report_pair(ctx, batch, be, x, y, True, a, b, tag, classes)
+                report_pair(ctx, batch, be, x, y, True, a, b, tag, classes, opts)
+            if be in EXACT and not iso and not twin:
+                dx, dy = direct_sig(be, x, opts), direct_sig(be, y, opts)
+                if dx is not None and dx == dy:
+                    ctx.violation("exact back-end: NautyCanonicalizer.graph_signature is equal for graphs that are not isomorphic on the covered attributes",
+                                  with_opts({"kind": "pair", "backend": be, "x": dump(x), "y": dump(y)}, opts), {"stream": tag, "graph_signature": dx}, classes=classes)
             if be in EXACT and iso and eq:
                 # (4) canonical graphs equal on the covered attributes
-                case = {"kind": "pair", "backend": be, "x": dump(x), "y": dump(y)}
+                case = with_opts({"kind": "pair", "backend": be, "x": dump(x), "y": dump(y)}, opts)
                 if a.text != b.text:  # `_serialise` prints the covered keys only
                     ctx.violation("exact back-end: isomorphic graphs with equal signatures have different canonical graphs on the covered attributes",
                                   case, {"stream": tag}, classes=classes)
-                elif ids_ok(a.cg) and ids_ok(b.cg):
+                elif ids_ok(a.cg) and ids_ok(b.cg) and not custom_keys(opts):
                     def on_cov(rep, case=case):
                         ctx.count("covEq_checked")
                         if rep is not True:
                             ctx.violation("exact back-end: isomorphic graphs have different canonical graphs on the covered attributes (spec.covEq)",
                                           case, {"stream": tag}, classes=classes)
                     batch.add({"cmd": "spec.covEq", "g": dump(a.cg), "h": dump(b.cg)}, on_cov)
-            wrappers(ctx, be, x, y, eq, iso, tag, classes, twin)
-    batch.add(iso_req(x, y), on_iso)
+            wrappers(ctx, be, x, y, eq, iso, tag, classes, twin, opts)
+    batch.add(iso_req(x, y, opts), on_iso)
 
 
-def wrappers(ctx, be, x, y, sig_eq, iso, tag, classes, twin=False):
+def wrappers(ctx, be, x, y, sig_eq, iso, tag, classes, twin=False, opts=None):
     """(5) CanonicalGraph / SynGraph equality and hash follow the signatures."""
     if twin:
         from synkit.Graph.Canon.canon_graph import CanonicalGraph
     else:
         from synkit.Graph.canon_graph import CanonicalGraph
     from synkit.Graph.syn_graph import SynGraph
-    gc = canoniser(be, twin)
-    case = {"kind": "pair", "backend": be, "x": dump(x), "y": dump(y)}
+    gc = canoniser(be, twin, opts)
+    case = with_opts({"kind": "pair", "backend": be, "x": dump(x), "y": dump(y)}, opts)
     try:
         sx, sy = SynGraph(x, gc), SynGraph(y, gc)
         eq = (sx == sy)
@@ -646,9 +769,11 @@ def load_regress():
 
 def run_case(ctx, batch, c, tag):
     if c["kind"] == "single":
-        check_single(ctx, batch, c["backend"], undump(c["graph"]), tag, twin=c.get("twin", False))
+        check_single(ctx, batch, c["backend"], undump(c["graph"]), tag, twin=c.get("twin", False), opts=c.get("opts"))
     elif c["kind"] == "pair":
-        check_pair(ctx, batch, undump(c["x"]), undump(c["y"]), tag, backends=[c["backend"]])
+        check_pair(ctx, batch, undump(c["x"]), undump(c["y"]), tag, backends=[c["backend"]], opts=c.get("opts"))
+    elif c["kind"] == "history":
+        check_history(ctx, c, tag, shrink=False)
     elif c["kind"] == "rule":
         check_rules(ctx, batch, c["backend"], c["a"], c["b"], tag)
     batch.run()
@@ -891,6 +1016,719 @@ def stream_rules(ctx, batch):
     batch.run()
 
 
+# ------------------------------------------------------------------ rare-but-legal inputs
+ITS_PAIRS = [((1.0, 2.0), (2.0, 1.0)), ((1.5, 1.0), (1.0, 1.5)), ((0.0, 1.0), (1.0, 0.0)), ((2.0, 3.0), (3.0, 2.0))]
+STD_MODES = ["absent", "diff", "zero", "arom"]
+
+
+def set_std(g, mode):
+    """`standard_order` of an ITS-style graph (edge `order` = (reactant, product)) as SynKit produces it:
+    absent (hand-built / stripped graphs), order[0]-order[1] (ITSConstruction), 0 where |difference| < 1
+    (ITSConstruction(..., ignore_aromaticity=True)), or 0 everywhere.  Always a function of `order`."""
+    for u, v, d in g.edges(data=True):
+        o = d.get("order")
+        d.pop("standard_order", None)
+        if mode == "absent" or not isinstance(o, tuple):
+            continue
+        diff = o[0] - o[1]
+        if mode == "zero" or (mode == "arom" and abs(diff) < 1):
+            diff = 0
+        d["standard_order"] = diff
+    return g
+
+
+def tiny_its_bases(n, alphabet, rnd, sample=None):
+    """All labelled graphs on 0..n-1 whose edges are absent or carry a pair-valued order from
+    `alphabet`; all atoms carbon, node 0 with hcount 0 or 1 (so that a skeleton symmetry exchanging
+    (a, b) with (b, a) exists in many of them); standard_order mode drawn per graph."""
+    pairs = list(itertools.combinations(range(n), 2))
+    combos = [(es, h) for es in itertools.product([None] + list(alphabet), repeat=len(pairs)) for h in (0, 1)]
+    if sample is not None and len(combos) > sample:
+        combos = rnd.sample(combos, sample)
+    out = []
+    for es, h in combos:
+        nodes = [(i, atom("C", hcount=(h if i == 0 else 0))) for i in range(n)]
+        edges = [(u, v, {"order": o}) for (u, v), o in zip(pairs, es) if o is not None]
+        mode = rnd.choice(STD_MODES)
+        out.append((set_std(mk(nodes, edges), mode), mode))
+    return out
+
+
+def its_symmetric(rnd, G0, pattern, ab, mode):
+    """A symmetric skeleton with pair-valued orders: `alt` alternates (a,b)/(b,a) along the edge list
+    (a genuine alternation on cycles), `rand2` draws each edge from {(a,b),(b,a)}, `rand3` also (c,c),
+    `one` is uniform (a,b) with a single (b,a)."""
+    a, b = ab
+    g = uniform_graph(G0)
+    es = list(g.edges)
+    one = rnd.randrange(len(es)) if es else 0
+    for k, (u, v) in enumerate(es):
+        if pattern == "alt":
+            o = a if k % 2 == 0 else b
+        elif pattern == "rand2":
+            o = rnd.choice([a, b])
+        elif pattern == "rand3":
+            o = rnd.choice([a, b, (1.0, 1.0)])
+        else:
+            o = b if k == one else a
+        g[u][v]["order"] = o
+    return set_std(g, mode)
+
+
+def skeletons(quick):
+    sk = {f"C{k}": nx.cycle_graph(k) for k in (3, 4, 5, 6)}
+    sk.update({f"P{k}": nx.path_graph(k) for k in (3, 4, 5)})
+    sk["star3"] = nx.star_graph(3)
+    sk["K23"] = nx.complete_bipartite_graph(2, 3)
+    sk["2xP3"] = nx.disjoint_union(nx.path_graph(3), nx.path_graph(3))
+    sk["2xC3"] = nx.disjoint_union(nx.cycle_graph(3), nx.cycle_graph(3))
+    sk["K4"] = nx.complete_graph(4)
+    if not quick:
+        sk["C8"] = nx.cycle_graph(8)
+        sk["Q3"] = nx.cubical_graph()
+        sk["prism"] = nx.circular_ladder_graph(3)
+        sk["P7"] = nx.path_graph(7)
+        sk["star4"] = nx.star_graph(4)
+    return sk
+
+
+def one_breaker(rnd, g, kind):
+    """Copy of a uniform symmetric graph in which exactly ONE attribute on ONE node / edge (or, for the
+    `drop_*` kinds, the presence of one optional key on ALL nodes) differs.  None when not applicable."""
+    h = g.copy()
+    nodes, edges = list(h.nodes), list(h.edges)
+    if kind in ("element", "charge", "aromatic", "hcount"):
+        d = h.nodes[rnd.choice(nodes)]
+        d[kind] = {"element": "N", "charge": 1, "aromatic": True, "hcount": 2}[kind]
+    elif kind == "order":
+        if not edges:
+            return None
+        u, v = rnd.choice(edges)
+        h[u][v]["order"] = 2.0
+    elif kind == "std_only":
+        if not edges:
+            return None
+        for u, v in edges:
+            h[u][v]["standard_order"] = 0
+        u, v = rnd.choice(edges)
+        h[u][v]["standard_order"] = 1
+    elif kind == "pair_swap":
+        if not edges:
+            return None
+        a, b = rnd.choice(ITS_PAIRS)
+        for u, v in edges:
+            h[u][v]["order"] = a
+        u, v = rnd.choice(edges)
+        h[u][v]["order"] = b
+        set_std(h, rnd.choice(["absent", "zero", "arom"]))
+    elif kind.startswith("drop_"):
+        k = kind[5:]
+        for n in nodes:
+            h.nodes[n].pop(k, None)
+        if rnd.random() < 0.5 and k != "element":
+            h.nodes[rnd.choice(nodes)]["element"] = "O"
+    elif kind == "extra_only":
+        # differs only in attributes the signature does NOT cover: must not matter
+        h.nodes[rnd.choice(nodes)]["atom_map"] = 7
+        if edges:
+            u, v = rnd.choice(edges)
+            h[u][v]["w"] = 3
+    return h
+
+
+BREAKERS = ["element", "charge", "aromatic", "hcount", "order", "std_only", "pair_swap", "drop_hcount", "drop_aromatic", "drop_charge", "extra_only"]
+
+
+def add_spectators(rnd, g, its):
+    """g plus unconnected spectator fragments (single atoms, H-H, a duplicate of one of its own bonds),
+    some of them twice (symmetry between components)."""
+    h = g.copy()
+    nxt = max(h.nodes, default=0) + 1
+    one = (1.0, 1.0) if its else 1.0
+    for _ in range(rnd.choice([1, 1, 2])):
+        kind = rnd.choice(["atom", "HH", "HH", "bond", "water"])
+        reps = rnd.choice([1, 2])
+        for _ in range(reps):
+            if kind == "atom":
+                h.add_node(nxt, **atom(rnd.choice(["H", "Cl", "Na"]), charge=rnd.choice([0, 1, -1])))
+                nxt += 1
+            elif kind == "HH":
+                h.add_node(nxt, **atom("H"))
+                h.add_node(nxt + 1, **atom("H"))
+                h.add_edge(nxt, nxt + 1, order=one)
+                nxt += 2
+            elif kind == "water":
+                h.add_node(nxt, **atom("O", hcount=2))
+                nxt += 1
+            elif g.number_of_edges():
+                u, v = rnd.choice(list(g.edges))
+                h.add_node(nxt, **dict(g.nodes[u]))
+                h.add_node(nxt + 1, **dict(g.nodes[v]))
+                h.add_edge(nxt, nxt + 1, **dict(g[u][v]))
+                nxt += 2
+    if its:
+        set_std(h, rnd.choice(STD_MODES))
+    return h
+
+
+def stream_shapes(ctx, batch):
+    """Rare-but-legal inputs: pair-valued bond orders with (a,b) next to (b,a) and every way SynKit sets
+    (or omits) standard_order; symmetric skeletons where exactly one attribute breaks the symmetry;
+    optional keys absent on all nodes; spectator fragments."""
+    rnd = ctx.rnd
+    q = ctx.quick
+    # (a) tiny-exhaustive, pair-valued orders, all node permutations
+    pools = {m: [] for m in STD_MODES}  # one Python type per value within a pool: `arom` / `zero` write the int 0, `diff` the float 0.0
+    plan = [(2, ITS_PAIRS[0] + ((1.0, 1.0),), None, 2), (3, ITS_PAIRS[0] + ((1.0, 1.0),), 40 if q else None, 1 if q else 2),
+            (3, ITS_PAIRS[1] + ITS_PAIRS[2][:1], 8 if q else 128, 1), (4, ITS_PAIRS[0] + ((1.0, 1.0),), 5 if q else 200, 1)]
+    for n, alphabet, sample, n_orders in plan:
+        bases = tiny_its_bases(n, alphabet, rnd, sample)
+        ctx.count(f"shapes:tiny_its_bases_n{n}", len(bases))
+        for g, mode in bases:
+            copies = all_copies(rnd, g, n_orders)
+            sigs = check_copies(ctx, batch, g, copies, f"shapes:tiny-its-n{n}", deep_n=1)
+            ctx.case(["tiny-its", mode, dump(g)], nontrivial=g.number_of_edges() >= 1)
+            pools[mode].append((g, sigs))
+            if full(ctx):
+                return
+        batch.run()
+    for mode, pool in pools.items():
+        kernel_pool(ctx, batch, pool, f"shapes:tiny-its-pool:{mode}")
+    # (b) symmetric skeletons with pair-valued orders
+    k = 4 if q else 16
+    for name, G0 in skeletons(q).items():
+        for pattern in ((rnd.choice(["alt", "one"]), rnd.choice(["rand2", "rand3"])) if q else ("alt", "one", "rand2", "rand3", "rand3")):
+            mode = rnd.choice(STD_MODES)
+            g = its_symmetric(rnd, G0, pattern, rnd.choice(ITS_PAIRS), mode)
+            copies = [random_copy(rnd, g) for _ in range(k)]
+            check_copies(ctx, batch, g, copies, f"shapes:its-sym:{name}:{pattern}", deep_n=1)
+            # one bond's (a, b) turned into (b, a): isomorphic or not, the engine decides
+            check_pair(ctx, batch, random_copy(rnd, g), random_copy(rnd, set_std(near_misses(rnd, g)[1], mode)), "shapes:its-sym-near-miss")
+            ctx.case(["its-sym", name, dump(g)], nontrivial=True, sample={"stream": "shapes", "family": name, "pattern": pattern, "graph": dump(g)} if name == "C4" else None)
+            ctx.count("shapes:its_symmetric")
+        if full(ctx):
+            return
+        batch.run()
+    # (c) one attribute breaks the symmetry
+    fams = symmetric_families(True)
+    names = ["C4", "C6", "K23", "star4", "2xC3", "2xP2"] + ([] if q else ["Q3", "K33", "prism", "C8", "P2+P3"])
+    for name in (rnd.sample(names, 4) if q else names):
+        g = fams[name]
+        for kind in (rnd.sample(BREAKERS, 5) if q else BREAKERS):
+            h = one_breaker(rnd, g, kind)
+            if h is None:
+                continue
+            copies = [random_copy(rnd, h) for _ in range(3 if q else 10)]
+            check_copies(ctx, batch, h, copies, f"shapes:breaker:{name}:{kind}", deep_n=1)
+            # against the unbroken graph: the engine decides (drop_* without a changed element and
+            # extra_only stay isomorphic on the covered attributes, the others do not)
+            check_pair(ctx, batch, random_copy(rnd, g), random_copy(rnd, h), f"shapes:breaker-pair:{kind}")
+            ctx.case(["breaker", name, kind, dump(h)], nontrivial=True)
+            ctx.count(f"shapes:breaker:{kind}")
+        if full(ctx):
+            return
+        batch.run()
+    # (d) spectators, (e) optional keys absent everywhere
+    for t in range(12 if q else 120):
+        its = rnd.random() < 0.5
+        g = random_mol(rnd, rnd.choice([2, 3, 4, 5, 6]), its=its)
+        h = add_spectators(rnd, g, its)
+        if rnd.random() < 0.4:
+            k_drop = rnd.choice(["hcount", "aromatic", "charge"])
+            for n in h.nodes:
+                h.nodes[n].pop(k_drop, None)
+            ctx.count(f"shapes:dropped_everywhere:{k_drop}")
+        copies = [random_copy(rnd, h) for _ in range(3 if q else 5)]
+        check_copies(ctx, batch, h, copies, "shapes:spectators", deep_n=1)
+        check_pair(ctx, batch, h, random_copy(rnd, g), "shapes:with-vs-without-spectators")
+        ctx.case(["spectators", dump(h)], nontrivial=True)
+        ctx.count("shapes:spectators")
+        if full(ctx):
+            return
+    batch.run()
+
+
+# ------------------------------------------------------------------ options
+def option_variants(rnd, be):
+    """Non-default configurations under which the property is still determined: node_attrs a permutation
+    or a superset of the covered node keys, other refinement depths, and sort keys built from permuted /
+    extended key lists (then the signature covers exactly those keys, and node_attrs follows them)."""
+    perm = lambda: rnd.sample(NODE_KEYS, len(NODE_KEYS))
+    out = [("perm", {"node_attrs": perm()}),
+           ("superset", {"node_attrs": perm() + ["atom_map"]})]
+    depth = {"wl": ("wl_iterations", [1, 2, 5]), "morgan": ("morgan_radius", [0, 1, 2, 5])}.get(be)
+    if depth:
+        out.append(("depth", {depth[0]: rnd.choice(depth[1]), "node_attrs": perm()}))
+    nk = perm()
+    out.append(("keys-perm", {"node_key": nk, "edge_key": ["standard_order", "order"], "node_attrs": list(nk)}))
+    nk2 = perm()
+    nk2.insert(rnd.randrange(len(nk2) + 1), "atom_map")
+    out.append(("keys-extra", {"node_key": nk2, "node_attrs": list(nk2)}))
+    return out
+
+
+def stream_options(ctx, batch):
+    rnd = ctx.rnd
+    per = 3 if ctx.quick else 40
+    for be in BACKENDS:
+        for vname, opts in option_variants(rnd, be):
+            for t in range(per):
+                n = rnd.choice([3, 4, 5, 6, 7])
+                g = random_mol(rnd, n, its=rnd.random() < 0.4)
+                mode = None
+                if rnd.random() < 0.3:
+                    mode = rnd.choice(STD_MODES)
+                    g = its_symmetric(rnd, rnd.choice(list(skeletons(True).values())), rnd.choice(["alt", "rand3"]), rnd.choice(ITS_PAIRS), mode)
+                    for v in g.nodes:
+                        g.nodes[v]["atom_map"] = rnd.choice([0, 0, 1, 2])
+                elif rnd.random() < 0.4:
+                    mode = rnd.choice(STD_MODES)
+                    set_std(g, mode)
+                # keys present on BOTH nodes and edges (uncovered on the side where the signature does not read them)
+                if rnd.random() < 0.5:
+                    for v in g.nodes:
+                        g.nodes[v]["order"] = rnd.choice([1.0, 2.0])
+                    for u, v in g.edges:
+                        g[u][v]["element"] = rnd.choice(["C", "N"])
+                        g[u][v]["charge"] = rnd.choice([0, 1])
+                    ctx.count("options:keys_on_nodes_and_edges")
+                copies = [random_copy(rnd, g) for _ in range(3)]
+                check_copies(ctx, batch, g, copies, f"options:{vname}", deep_n=1, backends=[be], opts=opts)
+                if vname != "superset":
+                    # (superset: the search separates more than the signature covers, so only copies that
+                    # preserve every attribute are in the property's scope)
+                    for h in near_misses(rnd, g)[:3]:
+                        if mode is not None:
+                            set_std(h, mode)  # keep standard_order the same function of order on both sides
+                        check_pair(ctx, batch, g, random_copy(rnd, h), f"options-near-miss:{vname}", backends=[be], opts=opts)
+                    if "atom_map" in node_keys_of(opts):
+                        h = g.copy()
+                        v = rnd.choice(list(h.nodes))
+                        h.nodes[v]["atom_map"] = h.nodes[v].get("atom_map", 0) + 1
+                        check_pair(ctx, batch, g, random_copy(rnd, h), f"options-near-miss:{vname}:atom_map", backends=[be], opts=opts)
+                ctx.case(["options", be, opts, dump(g)], nontrivial=True, sample={"stream": "options", "backend": be, "opts": opts} if t == 0 and be == "nauty" else None)
+                ctx.count(f"options:{be}:{vname}")
+            if full(ctx):
+                return
+        batch.run()
+
+
+# ------------------------------------------------------------------ hidden state between calls
+def norm_graph(g):
+    """The graph as a value (node / edge sets with full attribute dicts; no insertion order)."""
+    return [sorted([repr(n), sorted((str(k), repr(v)) for k, v in d.items())] for n, d in g.nodes(data=True)),
+            sorted([sorted([repr(u), repr(v)]), sorted((str(k), repr(x)) for k, x in d.items())] for u, v, d in g.edges(data=True))]
+
+
+def observe(gc, g, wrap=False):
+    """Everything public a query returns, as plain data."""
+    try:
+        cg = gc.make_canonical_graph(g)
+        out = {"sig": gc.canonical_signature(g), "text": gc._serialise(cg), "canonical_graph": norm_graph(cg)}
+        if wrap:
+            from synkit.Graph.syn_graph import SynGraph
+            out["SynGraph.signature"] = SynGraph(g, gc).signature
+            w = gc.canonicalise_graph(g)
+            out["CanonicalGraph.canonical_hash"] = w.canonical_hash
+            out["CanonicalGraph.canonical_graph"] = norm_graph(w.canonical_graph)
+    except Exception as e:
+        out = {"error": type(e).__name__}
+    return out
+
+
+def _fork_call(fn, *args):
+    """fn(*args) evaluated in a forked child; the pickled result comes back through a pipe."""
+    r, w = os.pipe()
+    sys.stdout.flush()
+    sys.stderr.flush()
+    pid = os.fork()
+    if pid == 0:
+        code = 0
+        try:
+            os.close(r)
+            try:
+                data = pickle.dumps(("ok", fn(*args)))
+            except BaseException as e:  # noqa
+                data = pickle.dumps(("err", f"{type(e).__name__}: {e}"))
+            with os.fdopen(w, "wb") as f:
+                f.write(data)
+        except BaseException:  # noqa
+            code = 1
+        finally:
+            os._exit(code)
+    os.close(w)
+    with os.fdopen(r, "rb") as f:
+        data = f.read()
+    os.waitpid(pid, 0)
+    kind, val = pickle.loads(data) if data else ("err", "no answer from the forked child")
+    if kind != "ok":
+        raise RuntimeError(val)
+    return val
+
+
+def _pristine_answer(req):
+    be, twin, opts, blob, wrap = req
+    return observe(make_canoniser(be, twin, opts), pickle.loads(blob), wrap)
+
+
+def _pristine_trial(case):
+    """In a process without history: run the history, then compare every query with the answer of yet
+    another history-free process.  Returns the first differing query (or None)."""
+    queries = _fork_call(run_history, case)
+    for q in queries:
+        ref = _fork_call(_pristine_answer, (*q["cfg"], q["blob"], q["wrap"]))
+        if ref != q["live"]:
+            return {"step": q["step"], "live": q["live"], "pristine": ref}
+    return None
+
+
+class Pristine:
+    """The specification side of `the signature (and canonical graph) is a function of the graph`: a
+    server process forked BEFORE the harness makes its first canonicalisation call; every request is
+    answered in a grand-child forked for that request alone, with a new canonicaliser — so each answer
+    is what the library returns when nothing at all has been asked before (no instance-, class- or
+    module-level state)."""
+
+    def __init__(self):
+        import synkit.Graph.canon_graph  # noqa: imported, never called, before the fork
+        import synkit.Graph.Canon.canon_graph  # noqa
+        import synkit.Graph.syn_graph  # noqa
+        c2s_r, c2s_w = os.pipe()
+        s2c_r, s2c_w = os.pipe()
+        sys.stdout.flush()
+        sys.stderr.flush()
+        self.pid = os.fork()
+        if self.pid == 0:
+            try:
+                os.close(c2s_w)
+                os.close(s2c_r)
+                self._serve(os.fdopen(c2s_r, "rb"), os.fdopen(s2c_w, "wb"))
+            finally:
+                os._exit(0)
+        os.close(c2s_r)
+        os.close(s2c_w)
+        self.w = os.fdopen(c2s_w, "wb")
+        self.r = os.fdopen(s2c_r, "rb")
+
+    @staticmethod
+    def _serve(rf, wf):
+        while True:
+            try:
+                op, arg = pickle.load(rf)
+            except EOFError:
+                return
+            try:
+                if op == "ask":
+                    res = ("ok", [_fork_call(_pristine_answer, req) for req in arg])
+                else:
+                    res = ("ok", _pristine_trial(arg))
+            except Exception as e:
+                res = ("err", f"{type(e).__name__}: {e}")
+            pickle.dump(res, wf)
+            wf.flush()
+
+    def _call(self, op, arg):
+        pickle.dump((op, arg), self.w)
+        self.w.flush()
+        kind, val = pickle.load(self.r)
+        if kind != "ok":
+            raise RuntimeError(val)
+        return val
+
+    def ask(self, reqs):
+        return self._call("ask", reqs)
+
+    def trial(self, case):
+        return self._call("trial", case)
+
+    def close(self):
+        try:
+            self.w.close()
+            self.r.close()
+            os.waitpid(self.pid, 0)
+        except Exception:
+            pass
+
+
+_pristine = None
+
+
+def pristine():
+    global _pristine
+    if _pristine is None:
+        _pristine = Pristine()
+    return _pristine
+
+
+def enc_attrs(d):
+    return {k: graphio.val(v) for k, v in d.items()}
+
+
+def bond_float(key, x):
+    """Bond orders are floats in the graphs SynKit builds; the JSON encoding keeps half-units only."""
+    if key not in EDGE_KEYS:
+        return x
+    if isinstance(x, tuple):
+        return tuple(bond_float(key, y) for y in x)
+    return float(x) if isinstance(x, int) and not isinstance(x, bool) else x
+
+
+def hist_undump(j):
+    g = undump(j)
+    for _, _, d in g.edges(data=True):
+        for k in EDGE_KEYS:
+            if k in d:
+                d[k] = bond_float(k, d[k])
+    return g
+
+
+def run_history(case, count=None):
+    """Execute a history: `objects` {name: graph dump}, `insts` [[backend, twin, opts], ...] (one NEW
+    canonicaliser each, alive for the whole history), `steps`:
+      ["q", obj, inst, wrap]            query
+      ["set_node", obj, v, key, val]    in-place mutations of a live object (val None = delete the key)
+      ["set_edge", obj, u, v, key, val]
+      ["del_edge", obj, u, v] / ["add_edge", obj, u, v, attrs] / ["del_node", obj, v]
+      ["refill", obj, graph dump]       same Python object, emptied and filled with another graph
+      ["copy", src, dst] / ["deepcopy", src, dst] / ["relabel", src, dst, [[old, new], ...]] /
+      ["subgraph", src, dst, nodes] / ["canon", src, dst, inst]     derived objects
+    Returns the queries: step index, configuration, live answer, pickled snapshot of the object as it
+    was when queried."""
+    objs = {str(k): hist_undump(v) for k, v in case["objects"].items()}
+    insts = [make_canoniser(be, twin, opts) for be, twin, opts in case["insts"]]
+    out = []
+    for i, st in enumerate(case["steps"]):
+        op = st[0]
+        if count:
+            count(op)
+        if op == "q":
+            _, o, k, wrap = st
+            g = objs[str(o)]
+            blob = pickle.dumps(g)
+            out.append({"step": i, "cfg": tuple(case["insts"][k]), "wrap": bool(wrap), "live": observe(insts[k], g, wrap), "blob": blob})
+            continue
+        g = objs[str(st[1])]
+        if op == "set_node":
+            _, _, v, key, val = st
+            if val is None:
+                del g.nodes[v][key]
+            else:
+                g.nodes[v][key] = graphio.unval(val)
+        elif op == "set_edge":
+            _, _, u, v, key, val = st
+            if val is None:
+                del g[u][v][key]
+            else:
+                g[u][v][key] = bond_float(key, graphio.unval(val))
+        elif op == "del_edge":
+            g.remove_edge(st[2], st[3])
+        elif op == "add_edge":
+            if g.has_edge(st[2], st[3]) or st[2] not in g or st[3] not in g:
+                raise KeyError("add_edge")
+            g.add_edge(st[2], st[3], **{k: bond_float(k, graphio.unval(x)) for k, x in st[4].items()})
+        elif op == "del_node":
+            g.remove_node(st[2])
+        elif op == "refill":
+            src = hist_undump(st[2])
+            g.clear()
+            g.add_nodes_from(src.nodes(data=True))
+            g.add_edges_from(src.edges(data=True))
+        elif op == "copy":
+            objs[str(st[2])] = g.copy()
+        elif op == "deepcopy":
+            objs[str(st[2])] = copy.deepcopy(g)
+        elif op == "relabel":
+            objs[str(st[2])] = nx.relabel_nodes(g, {a: b for a, b in st[3]}, copy=True)
+        elif op == "subgraph":
+            objs[str(st[2])] = g.subgraph(st[3]).copy()
+        elif op == "canon":
+            objs[str(st[2])] = insts[st[3]].make_canonical_graph(g)
+        else:
+            raise ValueError(op)
+    return out
+
+
+def gen_history(rnd, be, quick):
+    n = rnd.choice([3, 4, 5, 5, 6, 7])
+    its = rnd.random() < 0.45
+    norm = lambda x: undump(dump(x))
+    if rnd.random() < 0.3:
+        g = its_symmetric(rnd, rnd.choice(list(skeletons(True).values())), rnd.choice(["alt", "one", "rand3"]), rnd.choice(ITS_PAIRS), rnd.choice(STD_MODES))
+        its = True
+        n = g.number_of_nodes()
+    else:
+        g = random_mol(rnd, n, its=its)
+        if its and rnd.random() < 0.5:
+            set_std(g, rnd.choice(STD_MODES))
+    g = norm(g)
+    ids = list(g.nodes)
+    other = random_mol(rnd, n, its=its)
+    other = norm(relabelled_copy(other, dict(zip(other.nodes, rnd.sample(ids, len(ids))))))  # same id set, other structure
+    objects = {"0": dump(g), "1": dump(other)}
+    variants = option_variants(rnd, be)
+    others = [b for b in BACKENDS if b != be]
+    insts = [[be, False, None], [be, False, rnd.choice(variants[:3])[1]], [rnd.choice(others), False, None], [be, rnd.random() < 0.5, None]]
+    inst = lambda: rnd.choice([0, 0, 0, 0, 1, 2, 3])
+    wrap = lambda: rnd.random() < 0.25
+    q = lambda o, k=None: ["q", o, inst() if k is None else k, wrap()]
+    nxt = [2]
+
+    def new():
+        nxt[0] += 1
+        return nxt[0] - 1
+
+    def node_mut(o, gg):
+        v = rnd.choice(list(gg.nodes))
+        key = rnd.choice(NODE_KEYS + ["atom_map"])
+        old = gg.nodes[v].get(key)
+        newv = ("N" if old != "N" else "O") if key == "element" else (not old) if key == "aromatic" else (old or 0) + 1
+        return ["set_node", o, v, key, graphio.val(newv)], ["set_node", o, v, key, graphio.val(old) if key in gg.nodes[v] else None]
+
+    def edge_mut(o, gg):
+        u, v = rnd.choice(list(gg.edges))
+        old = gg[u][v].get("order")
+        newv = (old[1], old[0]) if isinstance(old, tuple) and old[0] != old[1] else ((2, 1) if isinstance(old, tuple) else (2 if old != 2 else 1))
+        return ["set_edge", o, u, v, "order", graphio.val(newv)], ["set_edge", o, u, v, "order", graphio.val(old)]
+
+    blocks = []
+    # the same graph under a permutation of its own ids, as a fresh copy and as a structural copy
+    d = new()
+    pm = rnd.sample(ids, len(ids))
+    blocks.append([["relabel", 0, d, [[a, b] for a, b in zip(ids, pm)]], q(d), q(0)])
+    # in-place mutation of an object that was queried; an earlier copy keeps the old content
+    d = new()
+    mut, back = node_mut(0, g)
+    blk = [["deepcopy", 0, d], q(0, 0), mut, q(0, 0), q(d)]
+    if rnd.random() < 0.6:
+        blk += [back, q(0, 0), q(d)]
+    blocks.append(blk)
+    if g.number_of_edges():
+        mut, back = edge_mut(0, g)
+        blk = [q(0, 0), mut, q(0, 0)]
+        if rnd.random() < 0.6:
+            blk += [back, q(0)]
+        blocks.append(blk)
+    if other.number_of_edges():
+        u, v = rnd.choice(list(other.edges))
+        blk = [q(1, 0), ["del_edge", 1, u, v], q(1, 0), q(1)]
+        if rnd.random() < 0.5:
+            blk += [["add_edge", 1, u, v, enc_attrs(other[u][v])], q(1, 0)]
+        blocks.append(blk)
+    # derived objects: sub-graph, copy, canonical graph (queried again, also by another instance)
+    d = new()
+    keep = [v for v in ids if v != rnd.choice(ids)]
+    blocks.append([q(0), ["subgraph", 0, d, keep], q(d), q(d, 0)])
+    d, d2 = new(), new()
+    blocks.append([["canon", 0, d, 0], q(d, 0), ["copy", d, d2], q(d2), q(0)])
+    # one configuration after the other on the same object; the same query three times
+    blocks.append([q(0, 1), q(0, 2), q(0, 0), q(0, 3), q(0, 0)])
+    blocks.append([q(1, 0), q(0, 0), q(1, 0), q(1, 0)])
+    # same Python object, new content (same ids)
+    blocks.append([q(1, 0), ["refill", 1, dump(g)], q(1, 0), ["refill", 1, dump(other)], q(1, 0)])
+    rnd.shuffle(blocks)
+    if quick:
+        blocks = blocks[:6]
+    steps = [q(0, 0), q(1, 0)] + [s for b in blocks for s in b]
+    return {"kind": "history", "backend": be, "objects": objects, "insts": insts, "steps": steps}
+
+
+def history_mismatch(live, ref):
+    for k in ("error", "sig", "text", "canonical_graph", "SynGraph.signature", "CanonicalGraph.canonical_hash", "CanonicalGraph.canonical_graph"):
+        if live.get(k) != ref.get(k):
+            return k
+    return None
+
+
+def check_history(ctx, case, tag, shrink=True):
+    """Every query of the history is compared with the answer a history-free process gives for an
+    identical copy of the object (pickled at query time) under the same configuration."""
+    try:
+        queries = run_history(case, count=lambda op: ctx.count(f"history:step:{op}"))
+    except Exception as e:
+        ctx.violation("history could not be executed", case, {"err": f"{type(e).__name__}: {e}"}, no_input=True)
+        return
+    refs = pristine().ask([(*q["cfg"], q["blob"], q["wrap"]) for q in queries])
+    for q, ref in zip(queries, refs):
+        ctx.count(f"history:queries:{q['cfg'][0]}")
+        key = history_mismatch(q["live"], ref)
+        if key is None:
+            continue
+        g = pickle.loads(q["blob"])
+        classes = input_classes(g)
+        if "error" in ref and "error" in q["live"]:
+            continue
+        small = dict(case, steps=case["steps"][:q["step"] + 1])
+        detail = {"stream": tag, "differs_in": key, "failing_step": q["step"], "configuration": list(q["cfg"]), "graph_at_query": dump(g),
+                  "with_history": {k: v for k, v in q["live"].items() if k in ("error", "sig", "text")},
+                  "history_free": {k: v for k, v in ref.items() if k in ("error", "sig", "text")}}
+        if shrink:
+            small, detail["reproduces_in_a_fresh_process"] = shrink_history(small)
+        ctx.violation("the result of a query depends on earlier calls: signature / canonical graph is not a function of the graph "
+                      "(differs from the answer of a process in which nothing was queried before)", small, detail, classes=classes)
+        return
+
+
+def shrink_history(case):
+    """Greedy removal of steps (the last one is the failing query), each trial in a history-free process."""
+    try:
+        if pristine().trial(case) is None:
+            return case, False
+    except Exception:
+        return case, False
+    steps = list(case["steps"])
+    trials = 0
+    i = len(steps) - 2
+    while i >= 0 and trials < 40:
+        cand = steps[:i] + steps[i + 1:]
+        trials += 1
+        try:
+            bad = pristine().trial(dict(case, steps=cand))
+        except Exception:
+            bad = None
+        if bad is not None and bad["step"] == len(cand) - 1:
+            steps = cand
+        i -= 1
+    used = {str(s[1]) for s in steps} | {str(s[2]) for s in steps if s[0] in ("copy", "deepcopy", "relabel", "subgraph", "canon")}
+    return dict(case, steps=steps, objects={k: v for k, v in case["objects"].items() if k in used}), True
+
+
+def stream_history(ctx, batch):
+    """Hidden state between calls: long-lived canonicalisers queried repeatedly, in changing order, on
+    objects that are mutated in place, copied, relabelled onto their own ids, cut down, refilled, and on
+    the canonical graphs themselves; several configurations interleaved on the same objects."""
+    rnd = ctx.rnd
+    for be in BACKENDS:
+        for t in range(5 if ctx.quick else 30):
+            case = gen_history(rnd, be, ctx.quick)
+            check_history(ctx, case, "history")
+            ctx.case(["history", case], nontrivial=True, sample={"stream": "history", "backend": be, "steps": case["steps"][:12]} if t == 0 and be == "nauty" else None)
+            ctx.count(f"history:{be}")
+            if full(ctx):
+                return
+    # the run's long-lived canonicalisers (every stream above went through them): are their answers
+    # still those of a history-free process?
+    reqs, lives = [], []
+    for t in range(24 if ctx.quick else 150):
+        g = random_mol(rnd, rnd.choice([2, 3, 4, 5, 6, 7, 8]), its=rnd.random() < 0.4)
+        if rnd.random() < 0.3:
+            set_std(g, rnd.choice(STD_MODES))
+        for be in BACKENDS:
+            twin = rnd.random() < 0.2
+            lives.append((be, twin, g, observe(canoniser(be, twin), g, True)))
+            reqs.append((be, twin, None, pickle.dumps(g), True))
+        ctx.case(["long-lived", dump(g)], nontrivial=True)
+    for (be, twin, g, live), ref in zip(lives, pristine().ask(reqs)):
+        ctx.count(f"history:long_lived_queries:{be}")
+        key = history_mismatch(live, ref)
+        if key is not None and not ("error" in live and "error" in ref):
+            ctx.violation("the run's long-lived canonicaliser answers differently from a history-free process: signature / canonical graph "
+                          "is not a function of the graph", {"kind": "single", "backend": be, "graph": dump(g), "twin": twin},
+                          {"stream": "history:long-lived", "differs_in": key, "with_history": live.get("sig"), "history_free": ref.get("sig")},
+                          classes=input_classes(g))
+            if full(ctx):
+                return
+
+
 def run(ctx):
     ctx.trusted = [
         "Lean 4.33 kernel; axioms of the property theorems as listed in obligation_list",
@@ -902,11 +1740,17 @@ def run(ctx):
         "proven engine / brute-force canonical form",
         "Driver/Canon.lean JSON codec, harness/graphio.py encoder, harness/props/c08.py adapter (node tags to read off the bijection; parser of the "
         "serialised text)",
+        "history stream: os.fork gives a process image in which the library has been imported but never called; pickle round-trips a networkx graph "
+        "exactly (dict orders included)",
     ]
     ctx.assumptions = [
         "node ids are non-negative integers; covered attributes hold one Python type per key (str / int / bool / float or pair of floats), bond orders multiples of 1/2",
         "graphs are simple undirected networkx.Graph objects (no multigraph / digraph)",
         "standard_order is absent or a function of order, as in every graph SynKit builds (the other case is the classified stream std-independent)",
+        "graphs that are compared with each other write a value the same way (int 0 vs float 0.0 print differently in the serialised text: pools and near "
+        "misses keep one standard_order rule per comparison); every edge carries `order` (the wl back-end reads it unconditionally)",
+        "non-default options are in scope where the configuration is coherent: node_attrs a permutation / superset of the keys the signature covers "
+        "(superset: only attribute-preserving copies are compared), sort keys whose edge part stays within order / standard_order",
     ]
     ctx.gen_rule = (
         "regression corpus first; tiny-exhaustive: ALL labelled graphs on n<=3 nodes (elements C/O, each edge absent/single/double, one node with hcount 0/1) and "
@@ -916,18 +1760,38 @@ def run(ctx):
         "attributes incl. tuples/lists) x random relabellings+insertion orders, plus one-attribute / one-edge near misses decided by the proven engine; "
         "symmetric families (cycles, K_{a,b}, K4, star, cube, prism, disjoint triangles, Petersen...) x random copies, each also with one label changed; "
         "hard non-isomorphic pairs (two triangles vs hexagon, prism vs K33, ...); the twin module Graph/Canon/canon_graph.py on a sample; malformed stream "
-        "(empty, isolated nodes, attributes absent everywhere / on some nodes); SynRule pairs (renumbered / different reactions).")
+        "(empty, isolated nodes, attributes absent everywhere / on some nodes); SynRule pairs (renumbered / different reactions). "
+        "SHAPES: tiny-exhaustive graphs with pair-valued orders ((1,2),(2,1),(1,1); sampled (1.5,1),(1,1.5),(0,1)) on 2-4 carbon atoms x all node permutations, "
+        "standard_order absent / a-b / zeroed below 1 / zero drawn per graph (kernel pools per mode); symmetric skeletons (cycles, paths, star, K23, K4, twin "
+        "paths / triangles) with alternating / single-swap / random pair orders x random copies + a one-bond swap decided by the engine; uniform symmetric "
+        "families with exactly one of 11 symmetry breakers (each covered node key, order, standard_order alone, one swapped pair, an optional key dropped on "
+        "all nodes, an uncovered key); random molecules with spectator fragments (atoms, H-H, water, duplicated bonds, some twice). OPTIONS: per back-end 4-5 "
+        "non-default configurations (node_attrs permuted / + atom_map, wl_iterations 1/2/5, morgan_radius 0/1/2/5, sort keys over permuted key lists and with "
+        "atom_map; attribute names on both nodes and edges) x random / symmetric graphs x copies and near misses. HISTORY: per back-end 5 (30) histories of "
+        "20-40 steps over 4 canonicalisers (main, a variant configuration, another back-end, the twin module) and 2 base objects on one id set + derived "
+        "objects, every query compared with a history-free process; 24 (150) fresh graphs through the run's long-lived canonicalisers at the end.")
     ctx.nontrivial_rule = "distinct as a JSON value of (stream, graph[, variant]); non-trivial when the graph has >= 2 nodes"
+    pristine()  # forked before the first canonicalisation call of this process
+    try:
+        _run(ctx)
+    finally:
+        pristine().close()
+
+
+def _run(ctx):
     build_and_audit(ctx, ["SynKitProofs.Props.C08"], "SynKitProofs/Audit/C08.lean", THEOREMS)
     batch = Batch(ctx)
     reg = load_regress()
     for c in reg:
         run_case(ctx, batch, c["case"] if "case" in c else c, "regress")
     ctx.count("regress_cases", len(reg))
-    for stream in (stream_symmetric, stream_tiny, stream_random, stream_twin, stream_malformed, stream_std, stream_rules):
+    for stream in (stream_shapes, stream_symmetric, stream_tiny, stream_random, stream_twin, stream_malformed, stream_std, stream_rules,
+                   stream_options, stream_history):
         if full(ctx):
             break
+        _t = time.time()
         stream(ctx, batch)
+        ctx.extra.setdefault("stream_wall_s", {})[stream.__name__] = round(time.time() - _t, 1)
     ctx.extra["exhaustive"] = False
     ctx.extra["exhaustive_part"] = "all labelled graphs on <=3 nodes (2 elements, 2 bond orders) and, in the thorough tier, on 4 nodes (2 elements, single bonds) x all node permutations x 2-3 insertion orders"
     ctx.extra["remark"] = ("SynRule equality is equality of the (left, right) fragment signatures (DESIGN 5a): rules with isomorphic sides and "
@@ -938,5 +1802,9 @@ def run(ctx):
 
 
 def replay(ctx, case):
-    batch = Batch(ctx)
-    run_case(ctx, batch, case["case"], "replay")
+    pristine()
+    try:
+        batch = Batch(ctx)
+        run_case(ctx, batch, case["case"], "replay")
+    finally:
+        pristine().close()
